@@ -98,6 +98,12 @@ func emitMapSites(repo string) {
 						env[mrSite{rel, name, "select"}]++
 					case *ast.CallExpr:
 						if sel, ok := v.Fun.(*ast.SelectorExpr); ok {
+							// `<build.Context>.Import / ImportDir`: the directory look-up of go/build through a context value
+							if s, ok := p.TypesInfo.Selections[sel]; ok {
+								if f, ok := s.Obj().(*types.Func); ok && f.Pkg() != nil && f.Pkg().Path() == "go/build" && (f.Name() == "Import" || f.Name() == "ImportDir") {
+									env[mrSite{rel, name, "build.Context." + f.Name()}]++
+								}
+							}
 							if id, ok := sel.X.(*ast.Ident); ok {
 								if pn, ok := p.TypesInfo.Uses[id].(*types.PkgName); ok {
 									full := pn.Imported().Name() + "." + sel.Sel.Name
